@@ -540,10 +540,12 @@ pub extern "C" fn resolvo_solve(
         }
         Err(resolvo::UnsolvableOrCancelled::Unsolvable(problem)) => {
             *error = problem.display_user_friendly(&solver).to_string().into();
+            *result = Vector::default();
             false
         }
         Err(resolvo::UnsolvableOrCancelled::Cancelled(cancelled)) => {
             *error = String::from("cancelled");
+            *result = Vector::default();
             false
         }
     }
